@@ -27,8 +27,8 @@ class TimedContext(Unit):
     clock step just before the timer thread re-acquired the mutex after its wait."""
     name = "timed_single_thread_context/TimerQueue"; driver = "k1_timed_context"; cfg = "shim17"; handler = "timerqueue"
     bound = {"quick": 2, "thorough": 3}
-    maxruns = {"quick": 700, "thorough": 20000}
-    nrandom = {"quick": 60, "thorough": 1500}
+    maxruns = {"quick": 1500, "thorough": 20000}
+    nrandom = {"quick": 100, "thorough": 1500}
 
     def programs(self, tier):
         progs = [
